@@ -758,7 +758,7 @@ class CPGen:
         elif hz == 'unroll_exit':
             s = ['hz2 = k1', 'do i = 1, 3', '  if (k1 + i > 2) exit', '  hz2 = hz2 + i', 'end do', f'oi({T1}) = hz2']
         elif hz == 'neg_folded_pow_base':
-            s = ['hzr = 0.25_8', f'orr({R1}) = x1 + (hzr - 0.5_8)**2', 'hz1 = 2', f'oi({T1}) = k1 + (hz1 - 5)**2']
+            s = ['hzr = 0.25_8', f'orr({R1}) = sin(x1 + ((hzr - 0.5_8)**2))', 'hz1 = 2', f'oi({T1}) = k1 + (hz1 - 5)**2']
         elif hz == 'real_kind_fold':
             s = ['hzr = 0.1_8', f'orr({R1}) = hzr*3.0_8 + x1', f'orr({R2}) = 1.0_8 / 3.0_8 + hzr']
         elif hz == 'internal_present':
